@@ -115,6 +115,16 @@ def scenario(name):
             v.add(db, "db-from:%s@%s" % (g(1), 11.0), mtime=31.0)
             v.files[CFG + "/db_config.json"].content = json.dumps({g(1): {"genedb": db, "gtf_mtime": 11.0, "db_mtime": 31.0, "complete_db": True}})
         return [(1, g(1), o(1), True, False), (2, g(1), o(2), False, False)], init
+    if name == "other-annotation-into-cached-folder":
+        # the cached database of annot1.gtf lies in out1 (an earlier, finished run); a new run converts ANOTHER annotation with the same
+        # base name into out1 while a second run, working on annot1.gtf in out2, is handed the cached path
+        def init(v):
+            base_init(v, cfg_exists=True)
+            db = o(1) + "/annot1.db"
+            v.add(db, "db-from:%s@%s" % (g(1), 11.0), mtime=31.0)
+            v.files[CFG + "/db_config.json"].content = json.dumps({g(1): {"genedb": db, "gtf_mtime": 11.0, "db_mtime": 31.0, "complete_db": True}})
+            v.add(V + "other/annot1.gtf", "gtf-other", mtime=12.5)
+        return [(1, V + "other/annot1.gtf", o(1), False, False), (2, g(1), o(2), False, False)], init
     if name == "three-processes":
         return [(1, g(1), o(1), False, False), (2, g(2), o(2), False, False), (3, g(3), o(3), False, False)], lambda v: base_init(v, cfg_exists=True)
     if name == "three-fresh":
@@ -182,7 +192,7 @@ def run(ctx):
     quick = ctx.tier == "quick"
     jobs = []
     two = ["fresh-home-different-gtf", "fresh-home-same-gtf", "existing-config-different-gtf", "cache-hit-vs-miss", "clean-start-vs-hit",
-           "same-gtf-different-completeness", "inferred-cached-vs-complete", "reconvert-in-place-vs-hit"]
+           "same-gtf-different-completeness", "inferred-cached-vs-complete", "reconvert-in-place-vs-hit", "other-annotation-into-cached-folder"]
     # thorough: bound 4 needs ~3 min per fresh-home scenario (5*10^4 executions, 3*10^5 states); unbounded exploration of the
     # fresh-home scenarios did not finish within 50 minutes and is therefore not claimed
     for n in two:
@@ -205,6 +215,8 @@ def run(ctx):
                  (name, bound, stats["executions"], stats["complete"], stats["states"], stats["transitions"], stats["max_depth"],
                   stats["distinct_outcomes"], " CAPPED" if stats["capped"] else ""))
         for key, msg, sched in viols:
+            if name == "other-annotation-into-cached-folder" and key == "foreign-or-partial-db" and "content is 'db-from:/vfs/other/annot1.gtf@12.5'" in msg:
+                key += ":cached-path-overwritten-by-another-annotation"      # a complete conversion, of the other run's input
             ctx.violation(key, "scenario %s: %s; schedule %s" % (name, msg, sched), {"scenario": name, "bound": bound, "schedule": sched})
             if len(samples) < 2:
                 samples.append({"scenario": name, "schedule": sched})
